@@ -263,9 +263,115 @@ async def session_op(run, s, op):
     raise AssertionError(op)
 
 
+# ---------------------------------------------------------------- result accessor family
+#
+# spec = (api, route, chain, accessor): the same text runs  conn.execute / conn.scalars / session.execute / session.scalars
+# (sync) and  conn.stream / conn.stream_scalars / session.stream / session.stream_scalars  (async); the rows are seeded by
+# the world before the program starts.
+
+ACC_APIS = ("core", "ormcols", "orment")
+ACC_CHAINS_RESULT = (
+    (), ("unique",), ("mappings",), ("scalars",), ("scalars1",), ("columns1",), ("yield_per1",), ("tuples",),
+    ("unique", "scalars"), ("unique", "mappings"), ("unique", "columns1"), ("columns1", "scalars"), ("columns1", "mappings"),
+    ("columns1", "unique"), ("scalars", "unique"), ("mappings", "unique"), ("mappings", "columns1"), ("unique", "scalars1"),
+)
+ACC_CHAINS_SCALAR = ((), ("unique",))
+ACC_ACCESSORS = (
+    ("all",), ("fetchall",), ("first",), ("one",), ("one_or_none",), ("scalar",), ("scalar_one",), ("scalar_one_or_none",), ("fetchone",),
+    ("fetchmany", 1), ("fetchmany", 2), ("fetchmany", None), ("partitions", 2), ("iter",), ("next2",), ("keys",), ("freeze",),
+)
+ACC_SIZES = ((), (10,), (10, 20), (10, 10), (10, 20, 10))
+
+
+def acc_text(spec):
+    api, route, chain, acc = spec
+    src = {"core": "conn", "ormcols": "session[cols]", "orment": "session[entity]"}[api]
+    calls = "".join(".%s()" % c.replace("scalars1", "scalars(1").replace("columns1", "columns(1").replace("yield_per1", "yield_per(1").replace("()", "()")
+                    if not c[-1].isdigit() else ".%s(%s)" % (c[:-1], c[-1]) for c in chain)
+    a = "%s(%s)" % (acc[0], ", ".join(repr(x) for x in acc[1:]))
+    return "%s.%s(stmt)%s.%s" % (src, route, calls, a)
+
+
+def _canon(v):
+    if isinstance(v, Item):
+        return ("Item", v.id, v.v)
+    if isinstance(v, sa.engine.RowMapping):
+        return {k: _canon(x) for k, x in v.items()}
+    if isinstance(v, (tuple, sa.engine.Row)):
+        return tuple(_canon(x) for x in v)
+    if isinstance(v, list):
+        return [_canon(x) for x in v]
+    if v is None or isinstance(v, (int, str, float, bool)):
+        return v
+    return type(v).__name__
+
+
+async def accessor_body(run, engine, spec):
+    api, route, chain, acc = spec
+    if api == "core":
+        stmt = sa.select(T.c.v, (T.c.v + 1).label("w")).order_by(T.c.id)
+        cm = engine.connect()
+    else:
+        stmt = (sa.select(Item.v, (Item.v + 1).label("w")) if api == "ormcols" else sa.select(Item)).order_by(Item.id)
+        cm = (AsyncSession if run.is_async else Session)(engine)
+    async with Ctx(cm) as obj:
+        run.mark("start 0")
+        res = None
+        try:
+            if run.is_async:
+                res = await getattr(obj, route)(stmt)
+            else:
+                # AsyncConnection.stream() is execute() with stream_results: the same cursor strategy on both sides
+                res = getattr(obj, {"stream": "execute", "stream_scalars": "scalars"}[route])(stmt, execution_options={"stream_results": True})
+            cur = res
+            for c in chain:
+                if c[-1].isdigit():
+                    cur = getattr(cur, c[:-1])(int(c[-1]))
+                else:
+                    cur = getattr(cur, c)()
+            name = acc[0]
+            if name == "iter":
+                out = [r async for r in cur] if run.is_async else [r for r in cur]
+            elif name == "next2":
+                if run.is_async:
+                    out = [await cur.__anext__(), await cur.__anext__()]
+                else:
+                    out = [next(cur), next(cur)]
+            elif name == "partitions":
+                if run.is_async:
+                    out = [list(p) async for p in cur.partitions(acc[1])]
+                else:
+                    out = [list(p) for p in cur.partitions(acc[1])]
+            elif name == "keys":
+                out = list(cur.keys())
+            elif name == "freeze":
+                fr = await aw(cur.freeze())
+                out = [fr().all(), fr().all()]
+            else:
+                out = await aw(getattr(cur, name)(*acc[1:]))
+            out = _canon(out)
+        except StopAsyncIteration:
+            out = "!StopIteration"
+        except Exception as e:  # noqa
+            out = "!" + type(e).__name__
+        finally:
+            if res is not None:
+                try:
+                    await aw(res.close())
+                except Exception:  # noqa
+                    pass
+        run.steps.append((acc_text(spec), out))
+        run.mark("done 0")
+        run.mark("exit")
+    run.mark("exited")
+
+
 async def program(run, engine, scope, ops):
     """the program text (shared by the sync and the async API)"""
     run.mark("enter")
+    if scope == "acc":
+        await accessor_body(run, engine, ops)
+        return
     if scope in ("connect", "begin"):
         cm = engine.connect() if scope == "connect" else engine.begin()
         stepper = core_op
@@ -317,6 +423,7 @@ class World:
         os.makedirs(self.dir, exist_ok=True)
         self.path = os.path.join(self.dir, "%s.db" % tag)
         self.setup = None
+        self.seed = ()  # rows present before the program runs (accessor family)
 
     def fresh(self):
         for suffix in ("", "-journal", "-wal", "-shm"):
@@ -326,6 +433,8 @@ class World:
                 pass
         c = sqlite3.connect(self.path)
         c.execute("create table t (id integer primary key, v integer)")
+        if self.seed:
+            c.executemany("insert into t values (?, ?)", self.seed)
         c.commit()
         c.close()
 
